@@ -103,7 +103,7 @@ def tstr(t, depth=0):
     if t is None:
         return '?'
     k = t[0]
-    if depth > 12:
+    if depth > 28:
         return '…'
     d = depth + 1
     if k == 'param' or k == 'var' or k == 'let':
